@@ -1026,13 +1026,33 @@ impl Execute for (WhileOrUntil, &ast::WhileOrUntilClauseCommand) {
             // Update status for condition
             shell.set_last_exit_status(condition_result.exit_code.into());
 
-            if !condition_result.is_normal_flow() {
+            if condition_result.is_return_or_exit() {
                 result = condition_result;
-
-                // If the condition has break/continue, the while/until loop itself
-                // consumes one level. We need to decrement the level before returning.
-                result.next_control_flow = result.next_control_flow.try_decrement_loop_levels();
                 break;
+            }
+
+            if !condition_result.is_normal_flow() {
+                // A break/continue raised in the condition; this loop consumes one level.
+                let is_break = condition_result.is_break();
+                let remaining = condition_result
+                    .next_control_flow
+                    .try_decrement_loop_levels();
+
+                // The status it carries still decides, as for any condition, whether the
+                // loop is done. If so, the loop ends with its last body status.
+                if condition_result.is_success() != is_while {
+                    result.next_control_flow = remaining;
+                    break;
+                }
+
+                // Otherwise it acts as if raised at the start of the body.
+                result = condition_result;
+                result.next_control_flow = remaining;
+                if is_break || result.is_continue() {
+                    break;
+                }
+
+                continue;
             }
 
             if condition_result.is_success() != is_while {
